@@ -90,8 +90,8 @@ func evalLex(lc *lexCase, lexed *result, parsed *result) []finding {
 		for i, t := range lexed.Toks {
 			e := lc.Lex.Toks[i]
 			ek, _ := e[0].(string)
-			if kindName(t.K) != ek || t.Off != num(e[1]) || t.Off+len(t.V) != num(e[2]) || t.L != num(e[3]) || t.C != num(e[4]) {
-				add("lex", fmt.Sprintf("token %d is %s at %d..%d (%d:%d), specified %s at %d..%d (%d:%d)", i+1, kindName(t.K), t.Off, t.Off+len(t.V), t.L, t.C, ek, num(e[1]), num(e[2]), num(e[3]), num(e[4])))
+			if kindName(t.K) != ek || t.Off != num(e[1]) || t.Off+t.N != num(e[2]) || t.L != num(e[3]) || t.C != num(e[4]) {
+				add("lex", fmt.Sprintf("token %d is %s at %d..%d (%d:%d), specified %s at %d..%d (%d:%d)", i+1, kindName(t.K), t.Off, t.Off+t.N, t.L, t.C, ek, num(e[1]), num(e[2]), num(e[3]), num(e[4])))
 				break
 			}
 		}
